@@ -660,6 +660,36 @@ def rule_f(ctx: Context, R: Reporter):
     R.floor("C12.f", "weight-function calls in the posterior routine", n, 1)
 
 
+def rule_g(ctx: Context, R: Reporter):
+    """C12.g  the options of posterior() act independently: the trimming call is
+    guarded by the trimming option only and the resampling call by the resampling
+    option only (a block nested under the other option is silently skipped for one
+    of the four combinations)."""
+    fi = posterior_fn(ctx)
+    flow = flow_of(fi.node)
+    from ..util import conds_holding_at as _cha
+    from ..util import split_cond as _split
+
+    bool_opts = [p for p in fi.params if p not in ("self",) and isinstance(fi.param_default(p), ast.Constant) and isinstance(fi.param_default(p).value, bool)]
+    n = 0
+    for nd in flow.cfg.stmt_nodes():
+        for c in calls_in_node(nd):
+            tg_ = [t for t in ctx.res.call_targets(fi, c) if isinstance(t, FuncInfo) and t.cls is None and t.module.name.endswith("tools")]
+            if not tg_:
+                continue
+            mentioned = set()
+            for (t, pol) in _cha(flow.cfg, nd):
+                for (a, p) in _split(t, pol):
+                    for x in ast.walk(a):
+                        if isinstance(x, ast.Name) and x.id in bool_opts:
+                            mentioned.add(x.id)
+            n += 1
+            R.check("C12.g", f"`{tg_[0].name}` is selected by one option of {fi.short}", len(mentioned) <= 1, fi, c,
+                    msg=f"{fi.short}: `{unparse(c)[:50]}` runs only under conditions on {sorted(mentioned)}: one option is nested inside another, so e.g. resample=True with "
+                        f"trim_importance_weights=False silently returns the un-resampled weighted sample", key=f"option-independent:{tg_[0].name}")
+    R.floor("C12.g", "option-controlled utility calls in posterior()", n, 2)
+
+
 def rule_e(ctx: Context, R: Reporter):
     """C12.e  the weights returned by posterior() sum to one on every path: every
     definition of the returned weight vector that reaches a return is a
@@ -689,6 +719,7 @@ def rule_e(ctx: Context, R: Reporter):
 
 
 def run(ctx: Context, R: Reporter):
+    R.guard(rule_g, ctx, R)
     R.guard(rule_f, ctx, R)
     R.guard(rule_e, ctx, R)
     R.guard(rule_a, ctx, R)
